@@ -840,6 +840,11 @@ class RZILTransformer(Transformer):
             a = self.promotion_cast(a)
             b = self.promotion_cast(b)
             a, b = self.cast_operands(a=a, b=b, immutable_a=False)
+        elif a and b:
+            # Shifts: each operand is promoted on its own.
+            # The result has the promoted type of the left operand.
+            a = self.promotion_cast(a)
+            b = self.promotion_cast(b)
         v = BitOp(name, a, b, op_type)
         return self.add_op(v)
 
